@@ -151,10 +151,14 @@ fn build_net(versioned: bool) -> Net {
     chans.push(Chan { label: "P1->B unnamed", input: InPort::PdB(leak(i)), class: 4, mode: Mode::Demux, src_members: vec![] });
     outs.push(Out { label: "B from P1 unnamed", port: OutPort::C(o), class: 4, members: b_members.clone() });
 
-    // chan 5 / class 5: A -> Q over "m" (the receiver sees the sender's member id)
+    // chan 5 / class 5: A -> Q (the receiver sees the sender's member id). In the single-version shape it
+    // shares the name "m" with A -> B; in the multi-version shape it has its own name, so that a
+    // (hypothetical) confusion of the two channels shows up as a misdelivery instead of as generated
+    // simulator code that does not compile (process- and cluster-addressed frames differ in type).
     let (i, s) = a.sim_input::<Rec, TotalOrder, ExactlyOnce>();
-    let o = s.send(&q, m()).entries_partially_ordered(nondet!(/** observer */)).sim_output();
-    chans.push(Chan { label: "A->Q 'm'", input: InPort::C(leak(i)), class: 5, mode: Mode::ToProc, src_members: a_members.clone() });
+    let to_q = if versioned { TCP.fail_stop().bincode().name("q") } else { m() };
+    let o = s.send(&q, to_q).entries_partially_ordered(nondet!(/** observer */)).sim_output();
+    chans.push(Chan { label: "A->Q 'm'/'q'", input: InPort::C(leak(i)), class: 5, mode: Mode::ToProc, src_members: a_members.clone() });
     outs.push(Out { label: "Q from A 'm'", port: OutPort::PtA(o), class: 5, members: vec![] });
 
     // chan 6 / class 6: A -> B demux over "m" (same name, same source cluster, other destination)
@@ -584,6 +588,7 @@ fn c35_sim_network() {
         let net = match vcommon::catch(|| build(name)) {
             Ok(n) => n,
             Err(msg) => {
+                eprintln!("shape {name}: building the simulator failed:\n{msg}");
                 rep.require(false, &format!("shape {name}: the simulator could not be built: {}", msg.chars().take(400).collect::<String>()));
                 continue;
             }
